@@ -1,3 +1,4 @@
+import G3D.Proofs.HandlersTieBody
 import G3D.Props.C03
 #print axioms G3D.Props.C03.inter_polygon_polygon_noncoplanar_exact
 #print axioms G3D.Props.C03.inter_polygon_polygon_noncoplanar_total
@@ -18,3 +19,8 @@ import G3D.Props.C03
 #print axioms G3D.Props.C03.inter_polyhedron_polyhedron_exact
 #print axioms G3D.Props.C03.inter_exact_every_pair
 #print axioms G3D.Props.C03.euler_formula
+#print axioms G3D.Tie.h_points_in_a_line_eq
+#print axioms G3D.Tie.h_get_segment_convexpolygon_intersection_point_set_eq
+#print axioms G3D.Tie.h_inter_convexpolygon_convexPolyhedron_eq
+#print axioms G3D.Tie.h_inter_convexpolyhedron_convexpolyhedron_eq
+#print axioms G3D.Tie.h_inter_convexpolygon_convexpolygon_eq_of_valid
